@@ -345,7 +345,6 @@ def run(repo: Repo, R: Report) -> None:
         "measured counts of registered classes / gc-tracked objects (nothing is run)",
         "residue inside third-party libraries",
         "attribute stores on node / processor objects built from the specification (D4 follows dict / list structure through calls and returns, not object fields)",
-        "one (empty) channel entry per job id kept by InMemorySemantivaTransport._queues (created by defaultdict lookup in publish, removal is forbidden by the C14 entry-stability rule)",
     )
 
     # ------------------------------------------------------------------ D1
@@ -461,6 +460,7 @@ def run(repo: Repo, R: Report) -> None:
         for c in calls_in(f):
             if call_attr(c) == "subscribe" and c.args:
                 patterns.extend(_channel_templates(repo, mod, f, c.args[0]) or [])
+    per_id_channels: List[Tuple[str, str, str, ast.AST]] = []
     transport_publish = {id(fn) for m, fn in repo._build_func_index().get("publish", []) if m.rel.startswith("semantiva/execution/transport/")}
     if not transport_publish:
         raise AnalysisError("no transport publish() definition found")
@@ -474,6 +474,37 @@ def run(repo: Repo, R: Report) -> None:
                 consumed = bool(tmpls) and all(any(fnmatch(t, p) for p in patterns) for t in tmpls)
                 repo.consulted.add(mod.rel)
                 R.check(consumed, r_obj, mod.rel, qn, norm(c)[:90], "messages are published to a channel nothing in the package subscribes to: the in-memory transport retains one Message (data, context) per node per run on a reused Pipeline", c.lineno)
+                # a channel whose *name* is computed per job / per run (a formatted field in the name) makes the
+                # transport's channel map grow by one entry (deque + lock) per name unless entries are released
+                for t in sorted(set(tmpls or [])):
+                    if "0000" in t:
+                        per_id_channels.append((mod.rel, qn, t.replace("0000", "<id>"), c))
+    tr_rel = "semantiva/execution/transport/in_memory.py"
+    tr_mod = repo.module(tr_rel)
+    tr_pub = repo.func(tr_rel, "InMemorySemantivaTransport.publish")
+    ch_param = tr_pub.args.args[1].arg if len(tr_pub.args.args) > 1 else "channel"
+    maps = {dotted_name(n.value) for n in ast.walk(tr_pub) if isinstance(n, ast.Subscript) and isinstance(n.slice, ast.Name) and n.slice.id == ch_param and (dotted_name(n.value) or "").startswith("self.")}
+    maps |= {dotted_name(c.func.value) for c in calls_in(tr_pub) if call_attr(c) in ("setdefault", "get") and c.args and isinstance(c.args[0], ast.Name) and c.args[0].id == ch_param and (dotted_name(c.func.value) or "").startswith("self.")}
+    maps.discard(None)
+    if not maps:
+        raise AnalysisError("InMemorySemantivaTransport.publish: channel map not recognised")
+    map_attrs = {m.split(".", 1)[1] for m in maps}
+    removal = []
+    for n in ast.walk(tr_mod.tree):
+        if isinstance(n, ast.Delete):
+            for tg in n.targets:
+                if isinstance(tg, ast.Subscript) and (dotted_name(tg.value) or "").split(".")[-1] in map_attrs:
+                    removal.append(n)
+        elif isinstance(n, ast.Call) and call_attr(n) in ("pop", "popitem", "clear") and isinstance(n.func, ast.Attribute) and (dotted_name(n.func.value) or "").split(".")[-1] in map_attrs:
+            removal.append(n)
+    R.extra["per_id_channel_publish_sites"] = len(per_id_channels)
+    # reported at the transport (the construct that never releases), once per channel-name template, so that moving
+    # a publish call into a helper does not change the finding
+    by_tmpl: Dict[str, List[str]] = {}
+    for rel, qn, tmpl, c in per_id_channels:
+        by_tmpl.setdefault(tmpl, []).append(f"{rel}:{qn}")
+    for tmpl, sites in sorted(by_tmpl.items()):
+        R.check(bool(removal), r_obj, tr_rel, "InMemorySemantivaTransport.publish", f"channel entries for per-id channel `{tmpl}` are released", f"every new id creates a channel entry (deque + lock) in {sorted(maps)[0]} and no code path ever removes one (published from {sorted(set(sites))}): the master's transport grows by one entry per job for each such channel, and every subscription scan walks all of them", tr_pub.lineno)
 
     # ------------------------------------------------------------------ D4
     _run_input_read_only(repo, R)
